@@ -56,6 +56,7 @@ CONSTANTS
   Caps,        \* {u*10 + SessionsCap of u}
   Creds,       \* {u*10 + initial UpCredit = DownCredit of u}
   InitSess,    \* {u*10 + sid}: sessions established (sequentially) before the behaviour starts
+  MaxNew,      \* bound on the ActiveUser records / sessions created during a behaviour (>= number of conn goroutines)
   MaxTraffic,  \* traffic units per behaviour
   AdminOps,    \* subset of {"topup","drain","expire","unexpire","delete"}
   MaxAdmin,
@@ -69,10 +70,9 @@ Sids0  == 0..NS
 AllCodes == UNION Progs
 NP      == IF AllCodes = {} THEN 1 ELSE CHOOSE n \in 1..9 : (\E c \in AllCodes : c \div 1000 = n) /\ \A c \in AllCodes : c \div 1000 <= n
 Procs   == 1..NP
-MaxConn == NP
-MaxRec  == NU + MaxConn
-MaxObj  == Cardinality(InitSess) + MaxConn
-KindName(k) == CASE k = 1 -> "conn" [] k = 2 -> "connr" [] k = 3 -> "serve" [] k = 4 -> "update" [] k = 5 -> "commit"
+MaxRec  == NU + MaxNew
+MaxObj  == Cardinality(InitSess) + MaxNew
+KindName(k) == CASE k = 1 -> "conn" [] k = 2 -> "connr" [] k = 3 -> "serve" [] k = 4 -> "update" [] k = 5 -> "commit" [] OTHER -> "none"
 Recs   == 1..MaxRec
 Objs   == 1..MaxObj
 TopUpK == 2
@@ -89,14 +89,15 @@ Minus(a, b) == [rx |-> a.rx - b.rx, tx |-> a.tx - b.tx, nt |-> a.nt - b.nt]
 Leq(a, b)   == a.rx <= b.rx /\ a.tx <= b.tx /\ a.nt <= b.nt
 Both(n)     == [rx |-> n, tx |-> n, nt |-> 0]
 
-NoOp  == [k |-> "none", u |-> 0, s |-> 0]
+NoOp  == [k |-> "none", u |-> 0, s |-> 0, key |-> 0]
 NoRes == [t |-> "none", o |-> 0]
 NoSess == [s \in Sids0 |-> 0]
 
 VARIABLES
   \* ---- processes
   pc,
-  op,       \* the program chosen at Init (constant afterwards): [k, u, s] per slot
+  op,       \* the program chosen at Init (constant afterwards): [k, u, s, key] per slot; key names the fresh
+            \* session key the connection brings along
   prec,     \* the *ActiveUser the goroutine holds (from GetUser; for "serve": the initial record)
   prem,     \* `remaining` computed by CloseSession under S
   trec,     \* the record TerminateActiveUser was called with
@@ -163,7 +164,7 @@ Init ==
   /\ \E prog \in Progs :
        op = [p \in Procs |-> IF \E c \in prog : c \div 1000 = p
                                THEN LET c == CHOOSE c \in prog : c \div 1000 = p
-                                    IN [k |-> KindName((c \div 100) % 10), u |-> (c \div 10) % 10, s |-> c % 10]
+                                    IN [k |-> KindName((c \div 100) % 10), u |-> (c \div 10) % 10, s |-> c % 10, key |-> p]
                                ELSE NoOp]
   /\ pc = [p \in Procs |-> FirstPc(op[p].k)]
   /\ prec = [p \in Procs |-> IF op[p].k = "serve" THEN op[p].u ELSE 0] /\ prem = [p \in Procs |-> 0] /\ trec = [p \in Procs |-> 0]
@@ -216,7 +217,7 @@ Ready(p) ==
     [] pc[p] = "u2"   -> IF AQ THEN qh = 0 ELSE aw = 0
     [] pc[p] = "u3"   -> TRUE
     [] pc[p] = "m1"   -> qh = 0
-    [] pc[p] = "m2"   -> aw = 0 /\ \A r \in NeedS(p) : sh[r] = 0
+    [] pc[p] = "m2"   -> (qin = {} \/ aw = 0) /\ \A r \in NeedS(p) : sh[r] = 0   \* an empty queue: the loop locks nothing
     [] pc[p] = "m3"   -> TRUE
     [] pc[p] = "mr"   -> aw = 0
     [] OTHER          -> FALSE
@@ -228,7 +229,7 @@ WaitsFor(p) ==
     [] pc[p] \in {"t1q", "m1"}            -> {"Q"}
     [] pc[p] = "u1"                       -> IF AQ THEN {"A"} ELSE {"Q"}
     [] pc[p] = "u2"                       -> IF AQ THEN {"Q"} ELSE {"A"}
-    [] pc[p] = "m2"                       -> (IF aw # 0 THEN {"A"} ELSE {}) \cup (IF \E r \in NeedS(p) : sh[r] # 0 THEN {"S"} ELSE {})
+    [] pc[p] = "m2"                       -> (IF aw # 0 /\ qin # {} THEN {"A"} ELSE {}) \cup (IF \E r \in NeedS(p) : sh[r] # 0 THEN {"S"} ELSE {})
     [] OTHER                              -> {}
 
 Goto(p, l) == pc' = [pc EXCEPT ![p] = l]
@@ -275,7 +276,7 @@ ConnCreate(p) ==
   /\ IF Auth(u) /\ Cardinality(Entries(r)) < CapOf(u) /\ nobj < MaxObj
        THEN /\ nobj' = o
             /\ ouid' = [ouid EXCEPT ![o] = u] /\ orec' = [orec EXCEPT ![o] = r]
-            /\ osid' = [osid EXCEPT ![o] = s] /\ okey' = [okey EXCEPT ![o] = p]
+            /\ osid' = [osid EXCEPT ![o] = s] /\ okey' = [okey EXCEPT ![o] = op[p].key]
             /\ olive' = [olive EXCEPT ![o] = TRUE]
             /\ rsess' = [rsess EXCEPT ![r][s] = o]
             /\ owhy' = [owhy EXCEPT ![o] = IF rterm[r] \/ active[u] # r THEN "lookup-gap" ELSE ""]
@@ -521,7 +522,7 @@ Why(o) == IF rwhy[orec[o]] # "" THEN rwhy[orec[o]] ELSE owhy[o]
 \* same (uid, sid) => same session (and hence same key); a session has one (uid, sid) by construction
 OneSession ==
   /\ \A o1, o2 \in LiveObjs : (ouid[o1] = ouid[o2] /\ osid[o1] = osid[o2]) => o1 = o2
-  /\ \A p \in Procs : pres[p].t = "new" => okey[pres[p].o] = p
+  /\ \A p \in Procs : pres[p].t = "new" => okey[pres[p].o] = op[p].key
 Cap == \A u \in Users : Cardinality({o \in LiveObjs : ouid[o] = u}) <= CapOf(u)
 NoStartWhenBroke == ~badStart
 
